@@ -679,6 +679,14 @@ impl Check for C03 {
         } else {
             gen::gen_session(&mut rng, class)
         };
+        let mut session = session;
+        if !long
+            && class != SizeClass::Huge
+            && Rng::new(mix(seed, "C03.fit", index)).chance(1, 20)
+            && gen::fit_to_capacity(&mut Rng::new(mix(seed, "C03.fit2", index)), &mut session, greeting.len())
+        {
+            ctx.counters.bump("streams_ending_at_a_buffer_capacity");
+        }
         let enc = gen::encode_session(&greeting, &session);
         let body = &enc.bytes[enc.greeting_len..];
         ctx.counters.bump(&format!("class.{:?}", class));
@@ -1376,7 +1384,14 @@ impl Check for C02 {
                     ctx.counters.bump("long_history_sessions");
                     gen::gen_long_session(&mut rng)
                 } else {
-                    gen::gen_session(&mut rng, class)
+                    let mut s = gen::gen_session(&mut rng, class);
+                    if class != SizeClass::Huge
+                        && Rng::new(mix(seed, "C02.fit", index)).chance(1, 8)
+                        && gen::fit_to_capacity(&mut Rng::new(mix(seed, "C02.fit2", index)), &mut s, greeting.len())
+                    {
+                        ctx.counters.bump("streams_ending_at_a_buffer_capacity");
+                    }
+                    s
                 },
                 cut: None,
                 fault: None,
